@@ -172,6 +172,11 @@ class RuntimeV1_0(Runtime):
                     events, processing_log=processing_log
                 )
 
+            # A failed action ends the turn: the turn is hidden and nothing that was
+            # pending before it must be resumed.
+            elif last_event["type"] == "hide_prev_turn":
+                next_events = []
+
             else:
                 # We need to slide all the flows based on the current event,
                 # to compute the next steps.
